@@ -244,6 +244,11 @@ def matches_known(k, pid, m):
     if k.get('status') != 'open' or pid not in k.get('properties', [k.get('property')]):
         return False
     sig = k.get('signature', {})
+    if not sig:
+        return False
+    if 'finding' in sig:
+        # finding signatures are matched only against findings the implementation itself reports on conforming edges
+        return m.get('kind') == 'finding' and m.get('finding') == sig['finding']
     ev = m.get('event') or {}
     if 'event' in sig and sig['event'] != ev.get('type'):
         return False
